@@ -16,7 +16,7 @@ ASSUMPTIONS = ["filter() is observed through list(...): the laziness of the gene
                "yielded) is not observed"]
 
 
-OPTOK = {"S", "X", "L", "&", "&s", "P", "c", "in", "f", "str", "len", "pre", "eq", "eqs", "T", "F", "N", "s", "v", "1", "0", "E"}
+OPTOK = {"d", "S", "X", "L", "&", "&s", "P", "c", "in", "f", "str", "len", "pre", "eq", "eqs", "T", "F", "N", "s", "v", "1", "0", "E"}
 
 
 def item_list(rng, pool, n=None, valid=0.985):
@@ -35,6 +35,10 @@ def item_list(rng, pool, n=None, valid=0.985):
             v = replace(v, pre=rng.choice([("a", 1), ("rc", 0), None]), dev=rng.choice([None, 0]), local=None)
             if v.pre is None and v.dev is None: v = replace(v, dev=1)
             its += [rng.choice("sv"), gen.vstr(v)]
+    if its and rng.random() < 0.12:
+        # the same object twice in the list (kind d repeats the previous item's text; the implementation side passes the previous object again)
+        j = 2 * rng.randrange(len(its) // 2)
+        its[j + 2:j + 2] = ["d", its[j + 1]]
     return its
 
 
